@@ -35,3 +35,97 @@ pub fn fx_hint<I: Iterator<Item = u8>>(it: I, v: &mut Vec<u8>) -> usize {
 pub fn fx_capacity(a: &Vec<u8>, b: &Vec<u8>) -> bool {
     a.capacity() > b.capacity()
 }
+
+/// R-SELFMADE: a correct hand-written two-cursor iterator ...
+pub struct GoodCursor<'a> {
+    entries: &'a [u32],
+    pos: usize,
+    pos_back: usize,
+}
+impl<'a> Iterator for GoodCursor<'a> {
+    type Item = &'a u32;
+    fn next(&mut self) -> Option<&'a u32> {
+        if self.pos >= self.pos_back {
+            return None;
+        }
+        let r = self.entries.get(self.pos);
+        self.pos += 1;
+        r
+    }
+    fn size_hint(&self) -> (usize, Option<usize>) {
+        let n = self.len();
+        (n, Some(n))
+    }
+}
+impl<'a> DoubleEndedIterator for GoodCursor<'a> {
+    fn next_back(&mut self) -> Option<&'a u32> {
+        if self.pos < self.pos_back {
+            self.pos_back -= 1;
+            self.entries.get(self.pos_back)
+        } else {
+            None
+        }
+    }
+}
+impl<'a> ExactSizeIterator for GoodCursor<'a> {
+    fn len(&self) -> usize {
+        self.pos_back - self.pos
+    }
+}
+
+/// ... and two broken ones: `next` ignores the back cursor; `next` moves the cursor even when it yields nothing
+pub struct BadCursorA<'a> {
+    entries: &'a [u32],
+    pos: usize,
+    pos_back: usize,
+}
+impl<'a> Iterator for BadCursorA<'a> {
+    type Item = &'a u32;
+    fn next(&mut self) -> Option<&'a u32> {
+        let r = self.entries.get(self.pos)?;
+        self.pos += 1;
+        Some(r)
+    }
+    fn size_hint(&self) -> (usize, Option<usize>) {
+        let n = self.len();
+        (n, Some(n))
+    }
+}
+impl<'a> DoubleEndedIterator for BadCursorA<'a> {
+    fn next_back(&mut self) -> Option<&'a u32> {
+        if self.pos >= self.pos_back {
+            return None;
+        }
+        self.pos_back -= 1;
+        self.entries.get(self.pos_back)
+    }
+}
+impl<'a> ExactSizeIterator for BadCursorA<'a> {
+    fn len(&self) -> usize {
+        self.pos_back - self.pos
+    }
+}
+pub struct BadCursorB<'a> {
+    entries: &'a [u32],
+    pos: usize,
+}
+impl<'a> Iterator for BadCursorB<'a> {
+    type Item = &'a u32;
+    fn next(&mut self) -> Option<&'a u32> {
+        let r = self.entries.get(self.pos);
+        self.pos += 1;
+        r
+    }
+    fn size_hint(&self) -> (usize, Option<usize>) {
+        let n = self.len();
+        (n, Some(n))
+    }
+}
+impl<'a> ExactSizeIterator for BadCursorB<'a> {
+    fn len(&self) -> usize {
+        self.entries.len() - self.pos
+    }
+}
+pub fn fx_cursors(v: &[u32]) -> (GoodCursor<'_>, BadCursorA<'_>, BadCursorB<'_>) {
+    (GoodCursor { entries: v, pos: 0, pos_back: v.len() }, BadCursorA { entries: v, pos: 0, pos_back: v.len() }, BadCursorB { entries: v, pos: 0 })
+}
